@@ -411,6 +411,14 @@ class Fold(ast.NodeTransformer):
                     return self.hit(copy.deepcopy(f.value.values[len(keys) - 1 - keys[::-1].index(k)]), node)
                 if len(node.args) == 1 or _pure(node.args[1]):
                     return self.hit(node.args[1] if len(node.args) == 2 else ast.Constant(value=None), node)
+        if isinstance(f, ast.Attribute) and f.attr in ('items', 'keys', 'values') and isinstance(f.value, ast.Dict) and not node.args and not node.keywords \
+                and all(k is not None and _const_key(k) is not None for k in f.value.keys) and all(_pure(v) for v in f.value.values):
+            d = f.value
+            if f.attr == 'items':
+                elts = [ast.Tuple(elts=[k, v], ctx=ast.Load()) for k, v in zip(d.keys, d.values)]
+            else:
+                elts = list(d.keys if f.attr == 'keys' else d.values)
+            return self.hit(ast.Tuple(elts=elts, ctx=ast.Load()), node)
         # beta reduction
         if isinstance(f, ast.Lambda) and simple:
             r = self._beta(f, node)
@@ -465,6 +473,26 @@ class Fold(ast.NodeTransformer):
                 return n
         return Rn().visit(copy.deepcopy(body))
 
+    def _flatten_stars(self, node):
+        self.generic_visit(node)
+        if isinstance(node.ctx, ast.Load) and any(isinstance(x, ast.Starred) and isinstance(x.value, (ast.Tuple, ast.List)) and not any(isinstance(y, ast.Starred) for y in x.value.elts)
+                                                 for x in node.elts):
+            new = []
+            for x in node.elts:
+                if isinstance(x, ast.Starred) and isinstance(x.value, (ast.Tuple, ast.List)) and not any(isinstance(y, ast.Starred) for y in x.value.elts):
+                    new.extend(x.value.elts)
+                else:
+                    new.append(x)
+            node.elts = new
+            self.changed = True
+        return node
+
+    def visit_Tuple(self, node):
+        return self._flatten_stars(node)
+
+    def visit_List(self, node):
+        return self._flatten_stars(node)
+
     def visit_BinOp(self, node):
         self.generic_visit(node)
         if isinstance(node.op, ast.Add) and isinstance(node.left, ast.Tuple) and isinstance(node.right, ast.Tuple) \
@@ -508,6 +536,68 @@ class Fold(ast.NodeTransformer):
         self.generic_visit(node)
         if isinstance(node.op, ast.Not) and isinstance(node.operand, ast.Constant) and isinstance(node.operand.value, (bool, type(None))):
             return self.hit(ast.Constant(value=not node.operand.value), node)
+        if isinstance(node.op, ast.Not) and isinstance(node.operand, ast.UnaryOp) and isinstance(node.operand.op, ast.Not) and self._boolish(node.operand.operand):
+            return self.hit(node.operand.operand, node)         # not not <comparison>
+        return node
+
+    @staticmethod
+    def _isinstance_parts(e):
+        """(object text, object node, [type nodes]) for isinstance(obj, T) / isinstance(obj, (T1, T2))"""
+        if isinstance(e, ast.Call) and isinstance(e.func, ast.Name) and e.func.id == 'isinstance' and len(e.args) == 2 and not e.keywords \
+                and not any(isinstance(a, ast.Starred) for a in e.args):
+            t = e.args[1]
+            ts = list(t.elts) if isinstance(t, ast.Tuple) else [t]
+            if all(isinstance(x, (ast.Name, ast.Attribute)) for x in ts) and _pure(e.args[0]):
+                return ast.dump(e.args[0]), e.args[0], ts
+        return None
+
+    def _merge_isinstance(self, node):
+        """isinstance(x, A) or isinstance(x, B) -> isinstance(x, (A, B)) ;  not isinstance(x, A) and not isinstance(x, B) -> not isinstance(x, (A, B))"""
+        is_or = isinstance(node.op, ast.Or)
+
+        def parts(v):
+            if is_or:
+                return self._isinstance_parts(v)
+            if isinstance(v, ast.UnaryOp) and isinstance(v.op, ast.Not):
+                return self._isinstance_parts(v.operand)
+            return None
+        out, i, changed = [], 0, False
+        vals = node.values
+        while i < len(vals):
+            p0 = parts(vals[i])
+            if p0 is None:
+                out.append(vals[i])
+                i += 1
+                continue
+            types = list(p0[2])
+            j = i + 1
+            while j < len(vals):
+                pj = parts(vals[j])
+                if pj is None or pj[0] != p0[0]:
+                    break
+                types.extend(pj[2])
+                j += 1
+            if j > i + 1:
+                seen, uniq = set(), []
+                for t in types:
+                    k = ast.dump(t)
+                    if k not in seen:
+                        seen.add(k)
+                        uniq.append(t)
+                call = ast.Call(func=ast.Name(id='isinstance', ctx=ast.Load()), args=[p0[1], ast.Tuple(elts=uniq, ctx=ast.Load())], keywords=[])
+                new = call if is_or else ast.UnaryOp(op=ast.Not(), operand=call)
+                ast.copy_location(new, vals[i])
+                ast.fix_missing_locations(new)
+                out.append(new)
+                changed = True
+            else:
+                out.append(vals[i])
+            i = j
+        if changed:
+            self.changed = True
+            if len(out) == 1:
+                return out[0]
+            node.values = out
         return node
 
     def visit_BoolOp(self, node):
@@ -532,7 +622,7 @@ class Fold(ast.NodeTransformer):
             if len(out) == 1:
                 return out[0]
             node.values = out
-        return node
+        return self._merge_isinstance(node)
 
     def visit_IfExp(self, node):
         self.generic_visit(node)
@@ -558,6 +648,12 @@ def _prune_ifs(fn):
                 changed[0] = True
                 out.extend(s.body if s.test.value else s.orelse)
                 continue
+            if isinstance(s, ast.Assign) and len(s.targets) == 1 and isinstance(s.targets[0], ast.Name) and isinstance(s.value, ast.Name) and s.value.id == s.targets[0].id:
+                changed[0] = True       # x = x  (the `else x` arm of a conditional expression that was turned into branches)
+                continue
+            if isinstance(s, ast.If) and s.orelse and all(isinstance(x, ast.Pass) for x in s.orelse):
+                s.orelse = []
+                changed[0] = True
             out.append(s)
         return out or [ast.Pass()]
     fn.body = block(fn.body)
@@ -687,7 +783,7 @@ def _propagate_locals(fn, ctx):
                     plan.append(ld)
                 elif isinstance(par, ast.keyword) and par.arg is None and all(isinstance(k, ast.Constant) and isinstance(k.value, str) for k in val.keys):
                     plan.append(ld)
-                elif isinstance(par, ast.Attribute) and par.value is ld and par.attr == 'get' and isinstance(info.parents.get(id(par)), ast.Call) \
+                elif isinstance(par, ast.Attribute) and par.value is ld and par.attr in ('get', 'items', 'keys', 'values') and isinstance(info.parents.get(id(par)), ast.Call) \
                         and info.parents.get(id(par)).func is par:
                     plan.append(ld)
                 else:
@@ -900,6 +996,166 @@ def _first_match_loops(fn):
     return changed[0]
 
 
+def _destructure_loop_targets(fn):
+    """for t in zip(A, B): f(*t)  /  ... t[0] ... t[1] ...      ->   for t__0, t__1 in zip(A, B): f(t__0, t__1)  /  ... t__0 ... t__1 ...
+    (t is the loop target only, used only starred in calls or subscripted by constants; also for enumerate(..) and .items())"""
+    changed = False
+    parents = _parents(fn)
+    counts = _bind_counts(fn)
+    for loop in [n for n in ast.walk(fn) if isinstance(n, ast.For)]:
+        if not isinstance(loop.target, ast.Name):
+            continue
+        t = loop.target.id
+        it = loop.iter
+        if isinstance(it, ast.Call) and isinstance(it.func, ast.Name) and it.func.id == 'zip' and it.args and not it.keywords and not any(isinstance(a, ast.Starred) for a in it.args):
+            width = len(it.args)
+        elif isinstance(it, ast.Call) and isinstance(it.func, ast.Name) and it.func.id == 'enumerate' and len(it.args) >= 1:
+            width = 2
+        elif isinstance(it, ast.Call) and isinstance(it.func, ast.Attribute) and it.func.attr == 'items' and not it.args:
+            width = 2
+        else:
+            continue
+        if counts.get(t, 0) != 1:
+            continue
+        uses = [n for n in ast.walk(fn) if isinstance(n, ast.Name) and n.id == t and isinstance(n.ctx, ast.Load)]
+        inside = {id(n) for st in loop.body + loop.orelse for n in ast.walk(st)}
+        if not uses or not all(id(u) in inside for u in uses):
+            continue
+        ok = True
+        for u in uses:
+            par = parents.get(id(u))
+            if isinstance(par, ast.Starred) and isinstance(parents.get(id(par)), ast.Call):
+                continue
+            k = _const_key(par.slice) if isinstance(par, ast.Subscript) and par.value is u and isinstance(par.ctx, ast.Load) else None
+            if k is not None and k[0] == 'int' and 0 <= k[1] < width:
+                continue
+            ok = False
+        if not ok:
+            continue
+        names = ['%s__%d' % (t, i) for i in range(width)]
+        if any(counts.get(n) for n in names):
+            continue
+
+        class Rp(ast.NodeTransformer):
+            def visit_Subscript(self, n):
+                if isinstance(n.value, ast.Name) and n.value.id == t and isinstance(n.ctx, ast.Load) and _const_key(n.slice) is not None:
+                    return ast.copy_location(ast.Name(id=names[_const_key(n.slice)[1]], ctx=ast.Load()), n)
+                return self.generic_visit(n)
+
+            def visit_Call(self, n):
+                self.generic_visit(n)
+                new = []
+                for a in n.args:
+                    if isinstance(a, ast.Starred) and isinstance(a.value, ast.Name) and a.value.id == t:
+                        new.extend(ast.copy_location(ast.Name(id=x, ctx=ast.Load()), a) for x in names)
+                    else:
+                        new.append(a)
+                n.args = new
+                return n
+        loop.body = [Rp().visit(st) for st in loop.body]
+        loop.orelse = [Rp().visit(st) for st in loop.orelse]
+        loop.target = ast.copy_location(ast.Tuple(elts=[ast.Name(id=x, ctx=ast.Store()) for x in names], ctx=ast.Store()), loop.target)
+        ast.fix_missing_locations(loop)
+        return True
+    return changed
+
+
+def _boolish(e):
+    if isinstance(e, ast.Compare):
+        return True
+    if isinstance(e, ast.Constant) and isinstance(e.value, bool):
+        return True
+    if isinstance(e, ast.UnaryOp) and isinstance(e.op, ast.Not):
+        return True
+    if isinstance(e, ast.BoolOp):
+        return all(_boolish(v) for v in e.values)
+    if isinstance(e, ast.Call) and isinstance(e.func, ast.Name) and e.func.id in ('isinstance', 'issubclass', 'callable', 'hasattr', 'all', 'any', 'bool'):
+        return True
+    return False
+
+
+def _test_pure(e):
+    """a guard condition whose evaluation has no effect: comparisons, attribute reads, isinstance / len / hasattr / type calls"""
+    for n in ast.walk(e):
+        if isinstance(n, ast.Call) and not (isinstance(n.func, ast.Name) and n.func.id in ('isinstance', 'issubclass', 'len', 'hasattr', 'type', 'callable', 'bool', 'int', 'float', 'abs')):
+            return False
+        if isinstance(n, (ast.Yield, ast.YieldFrom, ast.Await, ast.NamedExpr, ast.ListComp, ast.SetComp, ast.DictComp, ast.GeneratorExp, ast.Lambda)):
+            return False
+    return True
+
+
+def _neg(e):
+    if isinstance(e, ast.UnaryOp) and isinstance(e.op, ast.Not):
+        return e.operand
+    if isinstance(e, ast.Constant) and isinstance(e.value, bool):
+        return ast.Constant(value=not e.value)
+    return ast.UnaryOp(op=ast.Not(), operand=e)
+
+
+def _bool_flags(fn):
+    """short-circuit reconstruction of boolean flags:
+         f = A ; if not f: f = B        ->  f = A or B            f = A ; if f: f = B          ->  f = A and B
+         f = A ; if c: f = True         ->  f = A or c            f = A ; if c: f = False      ->  f = A and not c       (A, c boolean valued, c effect free)
+       and  for v in xs: if c(v): raise E   ->   if not all(not c(v) for v in xs): raise E      (E does not mention v)"""
+    changed = [False]
+
+    def block(stmts):
+        out = []
+        for s in stmts:
+            for fld in ('body', 'orelse', 'finalbody'):
+                v = getattr(s, fld, None)
+                if isinstance(v, list) and v and isinstance(v[0], ast.stmt) and not isinstance(s, (ast.FunctionDef, ast.ClassDef)):
+                    setattr(s, fld, block(v))
+            if isinstance(s, ast.Try):
+                for h in s.handlers:
+                    h.body = block(h.body)
+            prev = out[-1] if out else None
+            if isinstance(s, ast.If) and not s.orelse and len(s.body) == 1 and isinstance(s.body[0], ast.Assign) and len(s.body[0].targets) == 1 \
+                    and isinstance(s.body[0].targets[0], ast.Name) and isinstance(prev, ast.Assign) and len(prev.targets) == 1 and isinstance(prev.targets[0], ast.Name) \
+                    and prev.targets[0].id == s.body[0].targets[0].id:
+                f = prev.targets[0].id
+                A, B, t = prev.value, s.body[0].value, s.test
+                mentions_f = lambda e: any(isinstance(n, ast.Name) and n.id == f for n in ast.walk(e))
+                new = None
+                if isinstance(t, ast.Name) and t.id == f and not mentions_f(B) and not mentions_f(A):
+                    new = ast.BoolOp(op=ast.And(), values=[A, B])
+                elif isinstance(t, ast.UnaryOp) and isinstance(t.op, ast.Not) and isinstance(t.operand, ast.Name) and t.operand.id == f and not mentions_f(B) and not mentions_f(A):
+                    new = ast.BoolOp(op=ast.Or(), values=[A, B])
+                elif isinstance(B, ast.Constant) and isinstance(B.value, bool) and _boolish(A) and _boolish(t) and _test_pure(t) and not mentions_f(t) and not mentions_f(A):
+                    new = ast.BoolOp(op=ast.Or(), values=[A, t]) if B.value else ast.BoolOp(op=ast.And(), values=[A, _neg(t)])
+                if new is not None:
+                    # flatten nested same-operator chains
+                    vals = []
+                    for v in new.values:
+                        if isinstance(v, ast.BoolOp) and type(v.op) is type(new.op):
+                            vals.extend(v.values)
+                        else:
+                            vals.append(v)
+                    new.values = vals
+                    prev.value = ast.copy_location(new, prev.value)
+                    ast.fix_missing_locations(prev)
+                    changed[0] = True
+                    continue
+            if isinstance(s, ast.For) and not s.orelse and len(s.body) == 1 and isinstance(s.body[0], ast.If) and not s.body[0].orelse and len(s.body[0].body) == 1 \
+                    and isinstance(s.body[0].body[0], ast.Raise) and isinstance(s.target, (ast.Name, ast.Tuple)):
+                tnames = {n.id for n in ast.walk(s.target) if isinstance(n, ast.Name)}
+                r = s.body[0].body[0]
+                rnames = {n.id for n in ast.walk(r) if isinstance(n, ast.Name)}
+                if not (tnames & rnames) and _test_pure(s.body[0].test) and _pure(s.iter):
+                    gen = ast.GeneratorExp(elt=_neg(s.body[0].test), generators=[ast.comprehension(target=s.target, iter=s.iter, ifs=[], is_async=0)])
+                    test = ast.UnaryOp(op=ast.Not(), operand=ast.Call(func=ast.Name(id='all', ctx=ast.Load()), args=[gen], keywords=[]))
+                    new = ast.If(test=test, body=[r], orelse=[])
+                    ast.copy_location(new, s)
+                    ast.fix_missing_locations(new)
+                    out.append(new)
+                    changed[0] = True
+                    continue
+            out.append(s)
+        return out
+    fn.body = block(fn.body)
+    return changed[0]
+
+
 def _reduce_loops(fn, ctx):
     """x = reduce(f, seq, init)  ->  x = init ; for e in seq: x = f(x, e)       (statement-level assignment / return of a functools.reduce call)"""
     _, red, mods = ctx
@@ -974,6 +1230,58 @@ def _local_closures(fn, inliner, cls):
     return False
 
 
+def _coalesce_copies(fn):
+    """t = ... (one or more bindings, e.g. one per branch) ; x = t      ->  x = ...
+    t is read exactly once - by the copy - and x is bound only by that copy and never read before it: t and x are one variable"""
+    info = _FnInfo(fn)
+    for asg in [n for n in ast.walk(fn) if isinstance(n, ast.Assign)]:
+        if len(asg.targets) != 1 or not isinstance(asg.targets[0], ast.Name) or not isinstance(asg.value, ast.Name):
+            continue
+        x, t = asg.targets[0].id, asg.value.id
+        if x == t or not info.single(x) or t in info.params or info.counts.get(t, 0) < 1:
+            continue
+        at = info.order.get(id(asg))
+        if at is None or info.loops.get(id(asg), True):
+            continue
+        t_loads = info.loads(t)
+        if len(t_loads) != 1 or t_loads[0] is not asg.value:
+            continue
+        defs = [n for n in ast.walk(fn) if isinstance(n, ast.FunctionDef) and n.name == t and n is not fn]
+        if defs:
+            # x = <nested def t>: the def simply gets the name x (t is not referenced anywhere else, not even by itself)
+            if len(defs) == 1 and info.counts.get(t, 0) == 1 and info.order.get(id(defs[0])) is not None and info.order[id(defs[0])] < at \
+                    and not any(isinstance(n, ast.Name) and n.id == x and n is not asg.targets[0] and info.order.get(info.owner.get(id(n)), -1) <= at for n in ast.walk(fn)) \
+                    and not any(isinstance(n, ast.Name) and n.id == x for n in ast.walk(defs[0])):
+                defs[0].name = x
+                _remove_stmt(fn, asg)
+                return True
+            continue
+        # every binding of t is a plain Name store in an Assign / AugAssign / tuple target of this function's own body, before the copy and outside loops
+        ok = True
+        for n in ast.walk(fn):
+            if isinstance(n, ast.Name) and n.id == t and isinstance(n.ctx, (ast.Store, ast.Del)):
+                st = info.owner.get(id(n))
+                if isinstance(n.ctx, ast.Del) or info.order.get(st) is None or info.order[st] >= at:
+                    ok = False
+            if isinstance(n, (ast.FunctionDef, ast.ClassDef)) and n.name in (t, x) and n is not fn:
+                ok = False
+            if isinstance(n, ast.arg) and n.arg in (t, x) and n.arg not in info.params:
+                ok = False
+        for n in ast.walk(fn):
+            if isinstance(n, ast.Name) and n.id == x and n is not asg.targets[0]:
+                st = info.owner.get(id(n))
+                if info.order.get(st, -1) <= at:
+                    ok = False
+        if not ok:
+            continue
+        for n in ast.walk(fn):
+            if isinstance(n, ast.Name) and n.id == t:
+                n.id = x
+        _remove_stmt(fn, asg)
+        return True
+    return False
+
+
 def simplify_function(fn, ctx, inliner, cls):
     changed_any = False
     for _ in range(40):
@@ -984,11 +1292,15 @@ def simplify_function(fn, ctx, inliner, cls):
         changed |= _prune_ifs(fn)
         changed |= _first_match_loops(fn)
         changed |= _reduce_loops(fn, ctx)
+        changed |= _destructure_loop_targets(fn)
+        changed |= _bool_flags(fn)
         if _propagate_locals(fn, ctx):
             changed = True
         elif _record_dicts(fn):
             changed = True
         elif _local_closures(fn, inliner, cls):
+            changed = True
+        elif _coalesce_copies(fn):
             changed = True
         if not changed:
             break
